@@ -1,0 +1,20 @@
+// Copyright © 2022-2026 Obol Labs Inc. Licensed under the terms of a Business Source License 1.1
+
+//go:build verif
+
+// Verification contracts (comments only; read by /verif/govc, never compiled into charon).
+package pedersen
+
+//@ pure cluster.Threshold generateNonce
+
+// Every validator's protocol run uses the participants collected from the board and EXACTLY the configured
+// threshold (the cluster default only when none is configured): the sharing polynomial has degree t-1, so any
+// t shares reconstruct and sign (the rest is kyber's contract, A-PEDERSEN).
+//@ func RunDKG
+//@ props C11
+//@ callreq kdkg.NewProtocol: a1 != nil && a1.Threshold == ite(config.Threshold > 0, config.Threshold, cluster.Threshold(len(nodes))) && a1.NewNodes == nodes && a2 == board
+//@ callreq kdkg.NewProtocol: a1.Longterm == nodePrivateKey && a1.Suite == config.Suite && res(1, generateNonce(nodes, ncalls(kdkg.NewProtocol))) == nil && a1.Nonce == res(0, generateNonce(nodes, ncalls(kdkg.NewProtocol)))
+//@ callreq processKey: a2 == config && a3 == board
+//@ ensures r1 == nil && numVals >= 0 ==> len(r0) == numVals && ncalls(kdkg.NewProtocol) == numVals && ncalls(processKey) == numVals
+//@ loop 1 invariant len(shares) == $i && ncalls(kdkg.NewProtocol) == $i && ncalls(processKey) == $i
+//@ canary r1 != nil
